@@ -72,7 +72,7 @@ class C19(Prop):
                   'scripted one in the correspondence.')
     design_ref = '§5 C19'
     rule = ('route tables: every subset of the five routable types registered for a route, independently every subset with an unknown-route handler (exhaustive 32x32 on a '
-            'core request set) plus random tables with several routes and generated handler signatures; requests of all five types, route tags that are registered, unknown, or near misses of a registered name (white-space padding, other case, prefix, extension), with the route entry first/middle/last/absent/'
+            'core request set) plus random tables with several routes and generated handler signatures; requests of all five types, route tags that are registered, unknown, outside ASCII (half of the requests name their route through helpers.route() with a str), or near misses of a registered name (white-space padding, other case, prefix, extension), with the route entry first/middle/last/absent/'
             'empty/duplicated, authentication none/accepted/rejected (simple and bearer), verifier configured or not (the scripted verifier suspends once), unparseable metadata; half of the random cases are preceded by 1..3 earlier requests on the same handler instance (same or other credentials / type / route), the last of them optionally still in flight when the judged request arrives; non-trivial = verifier configured or '
             'route not registered for the type; distinct = distinct (table, request)')
     assumptions = ['handlers are coroutine functions registered through the RequestRouter decorators']
@@ -106,6 +106,9 @@ class C19(Prop):
             routes, unknown = [], []
             hid = 1
             names = ['72', '7a', '612f62', '78']
+            if rng.random() < 0.3:
+                # route names outside ASCII (their UTF-8 encoding is longer than their character count), one a prefix of the other
+                names = names + ['7365c3b1616c', '7365c3b161', '636166c3a92e6d656e75']
             for t in TYPES:
                 for rt in rng.sample(names, rng.randint(0, 3)):
                     routes.append([t, rt, hid, self._params(rng)])
@@ -172,7 +175,13 @@ class C19(Prop):
     def _blob(self, case):
         if case['blob'] is not None:
             return bytes.fromhex(case['blob'])
-        return bytes(c18.C18._encode(case['items']))
+        return bytes(c18.C18._encode(case['items'], self._via_helpers(case)))
+
+    @staticmethod
+    def _via_helpers(case):
+        # half of the requests name their route the way applications do: helpers.route('name') with a str
+        import hashlib
+        return hashlib.sha1(json.dumps(case['items'], sort_keys=True).encode()).digest()[0] % 2 == 0
 
     def run_impl(self, case):
         from rsocket.routing.request_router import RequestRouter
@@ -231,7 +240,7 @@ class C19(Prop):
         async def earlier(req):
             tok = LABEL.set('earlier')
             try:
-                await methods[req['ty']](Payload(b'earlier', bytes(c18.C18._encode(req['items']))))
+                await methods[req['ty']](Payload(b'earlier', bytes(c18.C18._encode(req['items'], self._via_helpers(req)))))
             except BaseException:
                 pass
             finally:
